@@ -120,6 +120,14 @@ func vAtEntry(x int) int { return x }
 // capacity it had when the loop was entered, or a backing array allocated since.
 func vKeptOrNew(s []byte) bool { return true }
 
+// Ghost wire log: frames handed to the session connection (Conn.WriteTo).
+// vWireCount is how many were sent so far, vWireLast the latest one.
+func vWireCount() int   { return 0 }
+func vWireLast() []byte { return nil }
+
+// vModifiesWire declares that the target may send frames.
+func vModifiesWire() {}
+
 // vFuel sets how many times recursive spec functions are unfolded in this harness (default 1).
 func vFuel(n int) {}
 
